@@ -111,6 +111,20 @@ def step (toks : List String) : String :=
   -- heat-bath table maxima: implementation-side oracle only (stored per-bond maxima vs the maximum
   -- over all 2^k diagonal entries of the user's matrix); nothing to replay
   | "hbtable" :: _ => "-"
+  -- manual cutoff calls between steps: `Qmc::cutoff` and the container length after each operation
+  -- (`s` = timestep, `i<c>` = increase_cutoff_to(c), `c<c>` = set_cutoff(c)), from the initial values
+  -- and the observed operator count after each operation
+  | ["cutoff", _nvars, _calls, _beta, _flags, cut0, len0, ops, ns] =>
+    let nl := parseNats ns
+    let opl := if ops == "-" then [] else ops.splitOn ","
+    let cops : List CutOp := (List.range opl.length).map fun k =>
+      let tok := opl.getD k ""
+      let arg := parseNat (tok.drop 1).toString
+      if tok.startsWith "i" then CutOp.increase arg
+      else if tok.startsWith "c" then CutOp.set arg
+      else CutOp.step (nl.getD k 0)
+    let tr := cutTrace { cutoff := parseNat cut0, len := parseNat len0 } cops
+    s!"{showNats (tr.map (·.cutoff))} {showNats (tr.map (·.len))}"
   -- oracle-only case after a cluster / diagonal sub-update of the constant-diagonal-table systems
   | "clustercheck" :: _ => "-"
   -- the default measuring methods of `QmcStepper` on the generic sampler: number of measured steps
